@@ -348,6 +348,9 @@ func (e *Env) verifyFunc(it *Item) {
 		e.assumeLemmaQuantified(pkg, l)
 	}
 	e.cover("pre", tTrue)
+	if it.Opts["noframe"] == "" {
+		e.computeFrame(it, ctx)
+	}
 	fr := &Frame{fn: fn, item: it, entrySt: entry, specVars: vars, sname: shortName(fn)}
 	fr.regs = map[ssa.Value]Value{}
 	for i, p := range fn.Params {
@@ -413,13 +416,15 @@ func (e *Env) verifyFunc(it *Item) {
 		}
 	}
 	if it.Opts["noframe"] == "" {
-		e.frameCheck(it, ctx, entry, out, next0)
+		for n, g := range e.frameGoals(out) {
+			e.oblige("frame", sanitize(n), out.pc, g)
+		}
 	}
 }
 
-// frameCheck: every heap location allocated before the call and not named by a
-// modifies clause is unchanged.
-func (e *Env) frameCheck(it *Item, entryCtx *SpecCtx, entry, out *State, next0 string) {
+// computeFrame evaluates the modifies clauses in the entry state: for every heap array the
+// set of references the function may write.
+func (e *Env) computeFrame(it *Item, entryCtx *SpecCtx) {
 	allowed := map[string][]string{} // heap name -> allowed refs
 	allowAll := map[string]bool{}
 	add := func(name, ref string) { allowed[name] = append(allowed[name], ref) }
@@ -494,26 +499,33 @@ func (e *Env) frameCheck(it *Item, entryCtx *SpecCtx, entry, out *State, next0 s
 			allowAll[n] = true
 		}
 	}
-	var names []string
-	for n := range out.heap {
-		names = append(names, n)
+	e.frameAllowed = allowed
+	e.frameAllowAll = allowAll
+	e.frameOn = true
+}
+
+// frameGoals: for every heap array that differs from its entry version, the formula
+// "every location allocated before the call and not named by a modifies clause is unchanged".
+func (e *Env) frameGoals(out *State) map[string]string {
+	goals := map[string]string{}
+	if !e.frameOn {
+		return goals
 	}
-	sort.Strings(names)
-	for _, n := range names {
-		t := out.heap[n]
+	for n, t := range out.heap {
 		init := q(n + "@0")
-		if t == init || allowAll[n] || strings.HasPrefix(n, "T!") {
+		if t == init || e.frameAllowAll[n] || strings.HasPrefix(n, "T!") {
 			continue
 		}
 		r := "|$r|"
 		var excl []string
-		for _, a := range allowed[n] {
+		for _, a := range e.frameAllowed[n] {
 			excl = append(excl, mkNot(mkEq(r, a)))
 		}
-		goal := fmt.Sprintf("(forall ((%s Int)) (=> %s (= (select %s %s) (select %s %s))))", r,
-			mkAnd(append([]string{sx("<", r, next0)}, excl...)...), t, r, init, r)
-		e.oblige("frame", sanitize(n), out.pc, goal)
+		arr := t
+		goals[n] = fmt.Sprintf("(forall ((%s Int)) (=> %s (= (select %s %s) (select %s %s))))", r,
+			mkAnd(append([]string{sx("<", r, e.next0)}, excl...)...), arr, r, init, r)
 	}
+	return goals
 }
 
 // obligeCases discharges one goal under each of the case assumptions, in parallel,
@@ -665,6 +677,11 @@ func (e *Env) verifyPureWF(it *Item) {
 	}
 	for _, hn := range rd.heapNames {
 		e.sess.Cmd("(declare-const " + q("h$"+hn) + " " + rd.heapSort[hn] + ")")
+		if lt := e.leafTypes[hn]; lt != nil && strings.HasPrefix(hn, "F!") {
+			if r := e.typeRange("(select "+q("h$"+hn)+" |$r|)", lt); r != tTrue {
+				e.sess.Cmd("(assert (forall ((|$r| Int)) " + r + "))")
+			}
+		}
 	}
 	i := 0
 	for pi, pt := range ptypes {
